@@ -435,10 +435,16 @@ def _w_run_coroutine(self, target, signal=None):
         if last is not None:
             sess.thread_switches += 1
     # ---- injections and hooks ----
-    actions = sess.plan.get(sess.n)
+    actions = sess.plan.pop(sess.n, None)
     if actions:
-        for action in actions:
-            action(sess)
+        if self is sess.main_loop:
+            for action in actions:
+                action(sess)
+        else:
+            # Injected API calls act on tasks of the monitored (outermost) simulation: at a
+            # boundary of a nested simulation they would schedule those tasks into the nested
+            # loop - something no program does. They wait for the next boundary of their own.
+            sess.plan.setdefault(sess.n + 1, [])[:0] = actions
     for hook in sess.boundary_hooks:
         hook(sess, self, target, signal)
     try:
